@@ -18,6 +18,8 @@ a+= [x for x in b if x['id'] not in ids]
 json.dump(a,open('/verif/known_findings.json','w'),indent=1)
 PY
       git add known_findings.json
+    elif [[ "$f" == evidence/* ]]; then
+      git checkout --theirs -- "$f"; git add "$f"
     fi
   done
   if [ -z "$(git diff --name-only --diff-filter=U)" ]; then git commit -q --no-edit; else echo UNRESOLVED; exit 1; fi
